@@ -55,11 +55,15 @@ class C10(P.Property):
         world.setup_frontend()
         self.worlds = {}
 
-    def world_for(self, scheme):
-        w = self.worlds.get(scheme)
+    def world_for(self, scheme, variant=0):
+        w = self.worlds.get((scheme, variant))
         if w is None:
-            world.seed_randomness(("c10-world", scheme))
+            world.seed_randomness(("c10-world", scheme, variant))
             L, cfg0 = fe.default_config(scheme)
+            if variant:
+                # a valid configuration that differs from the scheme's defaults (16-byte keys), so that "the configuration that was
+                # accepted" is not what a server would get by filling in defaults
+                cfg0.update({"param_lambda": 16, "prf_f_output_length": 16} if scheme.startswith("CJJ14.") else {"param_lambda": 16})
             c = [dict(cfg0, salt="s1"), dict(cfg0, salt="s2", extra=1)]
             S = L.SSEScheme(dict(c[0]))
             z = fe.id_size(cfg0)
@@ -70,7 +74,7 @@ class C10(P.Property):
             T = {(i, wd): S.TokenGen(K[i], wd.encode()).serialize() for i in range(2) for wd in WORDS}
             Kd = S.KeyGen()
             DBd = {b"both": [b"\x31" * z, b"\x32" * z, b"\x33" * z], b"only1": [b"\x34" * z, b"\x35" * z], b"only2": [b"\x36" * z]}
-            w = self.worlds[scheme] = dict(L=L, cfgobj=L.SSEConfig(dict(c[0])), C=c, DB=DB, E=E, T=T,
+            w = self.worlds[(scheme, variant)] = dict(L=L, cfgobj=L.SSEConfig(dict(c[0])), C=c, DB=DB, E=E, T=T,
                                            E_decoy=S.EDBSetup(Kd, DBd).serialize(), T_decoy=S.TokenGen(Kd, b"both").serialize())
         return w
 
@@ -92,6 +96,9 @@ class C10(P.Property):
                         return {"do": kind, "e": e_}
                     return {"do": kind, "key": rng.randint(0, 1), "w": rng.choice(WORDS)}
                 st_ = mk(k)
+                if k in ("config", "upload") and rng.random() < 0.08:
+                    # fields the protocol does not know, named like things the server keeps: they are the client's business and change nothing
+                    st_["xf"] = rng.choice([{"state": 31}, {"state": 0}, {"ok": False}, {"config": "x", "edb": "y"}])
                 if rng.random() < 0.25:
                     st_["burst"] = mk(rng.choice(["config", "upload", "upload", "search"]))
                 steps.append(st_)
@@ -110,6 +117,7 @@ class C10(P.Property):
                      decoy=rng.random() < 0.5, gc_every=rng.choice([0, 0, 1, 3]),
                      digest=rng.choice(["unique", "unique", "same", "none"]), sid_style=rng.choice(["hex", "hex", "dotted", "long", "glob"]),
                      read_fault=({"step": rng.randrange(len(steps)), "skip": rng.choice([0, 0, 1, 2])} if rng.random() < 0.1 else None))
+        knobs["cfg_variant"] = rng.random() < 0.3
         if rng.random() < 0.3:
             knobs["mtime_gran"] = rng.choice([1, 2])  # a file system with coarse time stamps: writes within one tick carry the same stamp
         if rng.random() < 0.15 and steps:
@@ -125,13 +133,26 @@ class C10(P.Property):
             for combo in itertools.product(range(len(alpha)), repeat=n):
                 plans.append({"property": "C10", "seed": 1000 + len(plans), "knobs": dict(scheme="CJJ14.PiBas", net=dict(lo=0.001, hi=0.02), skew=1.0, bufsize=8192, forced_gap=0),
                               "steps": [dict(alpha[i]) for i in combo], "enumerated": True})
+        # two long grinds: 70 refused requests in a row (each ends its connection), alternating with aborted connections, then the
+        # ordinary flow -- whatever a server keeps per refused or vanished connection must not add up to anything
+        for first in (0, 2):
+            grind = []
+            for i in range(70):
+                grind.append({"do": "search", "key": 0, "w": "both"} if first == 0 else {"do": "upload", "e": i % 2})
+                if i % 3 == 0:
+                    grind.append({"do": "reconnect", "gap": 0, "abort": True})
+            tail = ([{"do": "config", "c": 0}, {"do": "upload", "e": 0}] if first == 0 else []) + [{"do": "search", "key": 0, "w": "both"}, {"do": "reconnect", "gap": 0, "abort": False},
+                                                                                                 {"do": "search", "key": 0, "w": "only1"}]
+            pre = [] if first == 0 else [{"do": "config", "c": 0}, {"do": "upload", "e": 0}]
+            plans.append({"property": "C10", "seed": 1000 + len(plans), "knobs": dict(scheme="CJJ14.PiBas", net=dict(lo=0.001, hi=0.02), skew=1.0, bufsize=8192, forced_gap=0),
+                          "steps": pre + grind + tail, "enumerated": True})
         return plans
 
     def execute(self, plan):
         res = P.Result()
         knobs = plan["knobs"]
         SID, FOREIGN, DECOY = sids_for(knobs.get("sid_style", "hex"))
-        w = self.world_for(knobs["scheme"])
+        w = self.world_for(knobs["scheme"], 1 if knobs.get("cfg_variant") and knobs["scheme"] in ("CJJ14.PiBas", "CJJ14.PiPack", "CJJ14.PiPtr", "CJJ14.Pi2Lev", "DP17.Pi") else 0)
         run = fe.Run(plan["seed"], knobs)
         run.sim.loop.max_time = 2.0e7  # reconnects may come eight (virtual) days later
         accepted = {}  # file name -> bytes on disk right after the request that created it was acknowledged
@@ -307,9 +328,9 @@ class C10(P.Property):
                         else:
                             await a.send("upload_edb", "not-bytes")
                     elif m["do"] == "config":
-                        await a.send("config", pickle.dumps(C[m["c"]]))
+                        await a.send("config", pickle.dumps(C[m["c"]]), **(m.get("xf") or {}))
                     elif m["do"] == "upload":
-                        await a.send("upload_edb", E[m["e"]])
+                        await a.send("upload_edb", E[m["e"]], **(m.get("xf") or {}))
                     else:
                         # the digest is a client-chosen echo field: unique per request, the same for every request, or absent
                         mode = knobs.get("digest", "unique")
@@ -463,7 +484,7 @@ class C10(P.Property):
 
     def simplifications(self, plan):
         k = plan["knobs"]
-        for key, val in (("skew", 1.0), ("bufsize", 8192), ("scheme", "CJJ14.PiBas"), ("net", dict(lo=0.01, hi=0.01)), ("forced_gap", 0), ("decoy", False), ("gc_every", 0), ("digest", "unique"), ("sid_style", "hex"), ("read_fault", None), ("mtime_gran", None), ("clock_steps", None)):
+        for key, val in (("skew", 1.0), ("bufsize", 8192), ("scheme", "CJJ14.PiBas"), ("net", dict(lo=0.01, hi=0.01)), ("forced_gap", 0), ("decoy", False), ("gc_every", 0), ("digest", "unique"), ("sid_style", "hex"), ("read_fault", None), ("mtime_gran", None), ("clock_steps", None), ("cfg_variant", False)):
             if k.get(key) != val:
                 yield dict(plan, knobs=dict(k, **{key: val}))
         steps = plan["steps"]
